@@ -108,6 +108,19 @@ CHECKS = {
         note="Name / range parsing of arbitrary text is not proved correct in general (closed examples + differential only). The generator decides what a text 'declares': a trailing [..] group is the bit range, "
              "white space inside a name is spaces only. Fix F25 (find_tokens split on ' ' only) is a prerequisite. Trusted: str::parse, HashMap.",
     ),
+    "C11": dict(
+        technique="Lean 4 proof (per-bit vector assembly, std_ulogic table, two's complement, enum widths, element labels) + three-way differential: generated GHW files through the real loader, a BYTE-LEVEL Lean model of wellen/src/ghw and the denotation of the abstract design",
+        text="Lean theorems C11_set_get (for every vector buffer, bit position and symbol: writing one bit record changes exactly that symbol of the assembled value, in the addressing the renderer and slice_signal use; "
+             "byte lemmas by kernel evaluation over all bytes x positions x symbols), C11_lut (STD_LOGIC_LUT = position in the rendering alphabet of GHDL's literal order), C11_int32 (the 8 bytes handed to the encoder end in the "
+             "32-bit two's complement), C11_enum_bits (minimal width), C11_labels / C11_labels_model_eq_spec (elements are labelled left + k / left - k in declaration order). The composition file -> waveform is differential: "
+             "gen/ghw_writer.py serialises random designs (see evidence rule) and the real loader, the byte-level Lean model (header, directory probe, string / type / WKT / hierarchy sections, type classification, add_var, signal "
+             "tracker incl. aliases, VecBuffer, snapshot / cycle sections, store, slices, pointer-level builder) and the design's denotation (atoms -> values, no tables, no packing) must agree on the full dump. "
+             "Malformed files and all corpus GHW files: implementation vs model (err / panic / dump).",
+        design_ref="DESIGN.md section 5 / C11",
+        note="The byte-level parser model is validated by correspondence only (no theorem connects it to the design's denotation); the proved facts are the pure components. Release build: debug assertions are not modelled. "
+             "Supported subset = what gen/ghw_writer.py emits (no i64 / physical types, no multi-dimensional or unconstrained arrays, dense signal ids). Fixes F23 (downto element labels) and F26 (element subtype names) are prerequisites. "
+             "Trusted: leb128, f64::from_le_bytes.",
+    ),
     "C13": dict(
         technique="Lean 4 proof (slice/compress = packing of the symbols fetched at the requested bit positions, by induction; entry round trip) + exhaustive sub-range differential in release and debug-assertion builds",
         text="Lean theorems C13_slice_symbols (for every kind, parent width and [msb:lsb]: the produced bytes render as the parent's symbols at those bit positions), C13_minimal_repack, C13_entry. "
